@@ -54,6 +54,11 @@ type input struct {
 	// Ingress resources, converted by the real converter and rendered by the real
 	// controller pipeline (conv.go). "" = the Config or the map builder is filled directly.
 	Source string `json:"source,omitempty"`
+	// OrderStr: converter streams only, the value of the path-type-order key of the global
+	// ConfigMap as written by the user (valid permutations, case variants, blanks, and
+	// invalid lists). It goes through the real configuration code; Order is then ignored
+	// and the order the code hands to the map builder is observed.
+	OrderStr *string `json:"order_str,omitempty"`
 }
 
 // fed is one AddHostnamePathMapping call, in call order.
@@ -99,6 +104,7 @@ type obs struct {
 	renderedAll []fileObs
 	ruleOf      map[string]int
 	targets     []string
+	order       []string // Global.MatchOrder after the real configuration code (converter streams)
 }
 
 func memFiles(hm *hatypes.HostsMap) []fileObs {
@@ -765,6 +771,63 @@ func genMalformed(rng *rand.Rand) input {
 	return in
 }
 
+// expectedOrder: what the documentation and the validation promise for a path-type-order
+// value: the list as given when it names each of the four types once (lower case, no
+// blanks), otherwise it is refused with a warning and the default order is used.
+func expectedOrder(v string) []string {
+	def := []string{"exact", "prefix", "begin", "regex"}
+	parts := strings.Split(v, ",")
+	if len(parts) != 4 {
+		return def
+	}
+	seen := map[string]bool{}
+	for _, p := range parts {
+		if (p != "exact" && p != "prefix" && p != "begin" && p != "regex") || seen[p] {
+			return def
+		}
+		seen[p] = true
+	}
+	return parts
+}
+
+// genOrderStr: mostly the 24 valid lists, otherwise case variants, blanks and invalid
+// lists (a type missing, a type twice, an unknown word, empty, trailing comma).
+func genOrderStr(rng *rand.Rand) string {
+	perm := append([]string{}, allOrders[rng.Intn(len(allOrders))]...)
+	switch rng.Intn(24) {
+	case 0: // one type missing
+		i := rng.Intn(4)
+		perm = append(perm[:i], perm[i+1:]...)
+	case 1: // exact missing
+		var p []string
+		for _, t := range perm {
+			if t != "exact" {
+				p = append(p, t)
+			}
+		}
+		perm = p
+	case 2: // a type twice
+		perm[rng.Intn(4)] = perm[rng.Intn(4)]
+	case 3: // unknown word
+		perm[rng.Intn(4)] = []string{"glob", "exactly", "", "str"}[rng.Intn(4)]
+	case 4:
+		return []string{"", ",", "exact", "regex,exact"}[rng.Intn(4)]
+	case 5: // trailing / leading comma
+		if rng.Intn(2) == 0 {
+			return strings.Join(perm, ",") + ","
+		}
+		return "," + strings.Join(perm, ",")
+	case 6: // case variant
+		i := rng.Intn(4)
+		perm[i] = strings.ToUpper(perm[i][:1]) + perm[i][1:]
+	case 7: // blanks
+		return strings.Join(perm, []string{", ", " ,"}[rng.Intn(2)])
+	case 8: // five entries
+		perm = append(perm, perm[rng.Intn(4)])
+	}
+	return strings.Join(perm, ",")
+}
+
 var headerPool = []string{"X-Env:canary", "X-Env:beta", "X-Ver:2"}
 
 // genConverted: a rule set declared as Gateway API HTTPRoutes (Exact / PathPrefix) or as
@@ -777,7 +840,8 @@ func genConverted(rng *rand.Rand, source string) input {
 	} else {
 		base = genRandom(rng, false)
 	}
-	in := input{Order: base.Order, Source: source}
+	ostr := genOrderStr(rng)
+	in := input{Order: expectedOrder(ostr), Source: source, OrderStr: &ostr}
 	seen := map[string]bool{}
 	withHeaders := rng.Intn(2) == 0
 	for _, r := range base.Rules {
@@ -830,6 +894,12 @@ func corpus() []input {
 	for _, rs := range [][]ruleIn{gw1, gw2, gw3} {
 		out = append(out, input{Order: def, Rules: rs, Source: "gateway"}, input{Order: []string{"regex", "begin", "prefix", "exact"}, Rules: rs, Source: "ingress"})
 	}
+	// path-type-order lists the validation has to refuse (default order used)
+	for _, v := range []string{"prefix,begin,regex", "begin,exact,regex", "exact,prefix,begin,regex,", "Exact,prefix,begin,regex"} {
+		v := v
+		out = append(out, input{Order: expectedOrder(v), OrderStr: &v, Source: "ingress", Rules: []ruleIn{
+			{"h", "/app", "exact", ""}, {"h", "/app", "prefix", ""}, {"h", "/", "begin", ""}, {"g", "/app/sub", "exact", ""}}})
+	}
 	return out
 }
 
@@ -843,9 +913,9 @@ func coqMeth(m string) string {
 	return map[string]string{"str": "MStr", "beg": "MBeg", "dir": "MDir", "reg": "MReg"}[m]
 }
 
-func coqCase(id int, in input, seq []fed, files []fileObs) string {
+func coqCase(id int, in input, order []string, seq []fed, files []fileObs) string {
 	var ord, ents, fs []string
-	for _, o := range in.Order {
+	for _, o := range order {
 		ord = append(ord, coqType(o))
 	}
 	for _, f := range seq {
@@ -951,7 +1021,13 @@ func main() {
 		// the property is about the files as generated: what was written must be what
 		// MatchFiles() holds, and the configuration must consult the files one after the
 		// other until one answers; the request level oracle then runs on the rendered files
-		if d := sameFiles(ob.memAll, ob.renderedAll); d != "" {
+		if in.OrderStr != nil {
+			res.Count("order_str_valid=" + fmt.Sprint(strings.Join(expectedOrder(*in.OrderStr), ",") == *in.OrderStr))
+		}
+		if in.OrderStr != nil && strings.Join(ob.order, ",") != strings.Join(expectedOrder(*in.OrderStr), ",") {
+			res.Count("oracle_fail_C04/path-type-order")
+			res.Fail(hx.Failure{Key: "C04/path-type-order", What: fmt.Sprintf("path-type-order %q: the map builder got the order %v, expected %v (a list that does not name each of exact, prefix, begin, regex once is refused and the default order used)", *in.OrderStr, ob.order, expectedOrder(*in.OrderStr)), Input: in, Observed: ob.order, Expected: expectedOrder(*in.OrderStr)})
+		} else if d := sameFiles(ob.memAll, ob.renderedAll); d != "" {
 			res.Count("oracle_fail_C04/rendered-map-differs")
 			res.Fail(hx.Failure{Key: "C04/rendered-map-differs", What: "the generated map files differ from MatchFiles(): " + d, Input: in, Observed: ob.renderedAll, Expected: ob.memAll})
 		} else if ob.chain != "" {
@@ -966,7 +1042,11 @@ func main() {
 		}
 		if !o.Search {
 			in, seq, files := in, seq, files
-			cw.Add(func(id int) string { return coqCase(id, in, seq, files) }, in)
+			order := in.Order
+			if ob.order != nil {
+				order = ob.order
+			}
+			cw.Add(func(id int) string { return coqCase(id, in, order, seq, files) }, in)
 		}
 	}
 	cw.Flush()
